@@ -393,9 +393,10 @@ def call_builtin(I, fn, args, kwargs, env, module):
             acc = I.call(f, [acc, x], {}, env, module)
         return acc
     if fn is collections.defaultdict:
-        if _isconc(args[1:]) and not isinstance(a0, Func):
-            return dict(*args[1:])
-        raise Unsupported('defaultdict')
+        from .interp import DDict
+        d = DDict(*args[1:])
+        d.factory = a0
+        return d
     # anything else: native call on concrete arguments
     cargs = [I.norm_str(a) if isinstance(a, FixedStr) else a for a in args]
     ckw = {k: (I.norm_str(v) if isinstance(v, FixedStr) else v) for k, v in kwargs.items()}
